@@ -282,6 +282,13 @@ fn run_one<P: Prop>(
             eprintln!("IPCV_FIND: wrote {}", p);
         }
     }
+    if let Some(out) = &ctx.out {
+        // remember the case being executed: if the library aborts the whole worker process, the
+        // orchestrator turns this file into the replay file of the violation
+        let doc = json!({"property": P::ID, "build": BUILD, "params": ctx.params, "seed": ctx.seed, "minimal": false,
+            "signature": "worker-process-died", "detail": "the worker process was killed while executing this case", "case": case});
+        let _ = std::fs::write(format!("{}.current", out), doc.to_string());
+    }
     match P::exec(ctx, case) {
         Ok(o) => {
             let mut a = acc.borrow_mut();
@@ -484,6 +491,9 @@ pub fn run<P: Prop>(ctx: &Ctx) -> i32 {
         "wall_s": t0.elapsed().as_secs_f64(),
     });
     let text = serde_json::to_string(&report).unwrap();
+    if let Some(p) = &ctx.out {
+        let _ = std::fs::remove_file(format!("{}.current", p));
+    }
     match &ctx.out {
         Some(p) => std::fs::write(p, text).expect("write report"),
         None => println!("{}", text),
